@@ -13,7 +13,10 @@ PROP = dict(
     level_note="Trusts the ~250 lines of reference geometry in the harness (two independent exact volumes are cross-checked, key "
                "oracle-inconsistent). Double precision comparisons use 1e-12 relative to the largest coordinate magnitude of the grid "
                "(volumes: times surface area, i.e. condition-aware); EGRID comparisons use the precision of the file format "
-               "(REAL: 6e-8 of each value unformatted, 1.8e-7 formatted = 8 decimal digits).",
+               "(REAL: 6e-8 of each value unformatted, 1.8e-7 formatted = 8 decimal digits). The generated "
+               "geometries never need the library's ZCORN repair; the only adjustments counted are one-ulp overlaps that the DEPTHZ "
+               "conversion itself produces ((d+z)+dz against d+(z+dz)). TOPS given for all layers with gaps (5% of the cases) meets "
+               "the known finding tops-below-top-layer-ignored; those cases still check index maps and the other two input forms.",
     technique="reference-model + relational monitor over generated grids; ThreadSanitizer (clang + libomp) on the OpenMP loop",
     rule="grids 1..10 cells per direction (thorough 1..14), 2% larger (up to 24x24x10, thorough 40x40x15): block-centred DX|DXV/"
          "DY|DYV/DZ|DZV/TOPS (full arrays, top-layer-only arrays, vectors; DZ and TOPS free per cell/column), DXV/DYV/DZV/DEPTHZ "
@@ -23,19 +26,19 @@ PROP = dict(
          "MAPAXES with and without MAPUNITS, GRIDUNIT, NNC records. A case is non-trivial when at least two input forms were "
          "accepted and the grid has >= 4 cells; distinct = distinct hash of (family, pillars, corner depths, map, ACTNUM).",
     stages=[
-        dict(harness="c13_grid", flavour="plain", cases={Q: 12000, T: 250000}, timeout={Q: 900, T: 7200},
+        dict(harness="c13_grid", flavour="plain", cases={Q: 12000, T: 150000}, timeout={Q: 900, T: 7200},
              env={"OMP_WAIT_POLICY": "passive"}),
         dict(id="c13_grid_tsan", harness="c13_grid", flavour="tsan", cases={Q: 1500, T: 30000}, timeout={Q: 900, T: 7200},
              args=["mode=threads"], env={"OMP_WAIT_POLICY": "passive", "KMP_BLOCKTIME": "0"}),
     ],
-    min_nontrivial={Q: 8000, T: 150000},
-    coverage_floor=[("c13_grid", "index_comparisons", {Q: 50000000, T: 1000000000}),
-                    ("c13_grid", "volume_vs_exact_comparisons", {Q: 5000000, T: 100000000}),
-                    ("c13_grid", "forms_comparisons", {Q: 10000000, T: 200000000}),
-                    ("c13_grid", "subdivision_cells_compared", {Q: 500000, T: 10000000}),
-                    ("c13_grid", "thread_volume_comparisons_with_teams_of_1_4_16", {Q: 2000000, T: 40000000}),
-                    ("c13_grid", "egrid_round_trips", {Q: 30000, T: 600000}),
-                    ("c13_grid_tsan", "thread_volume_comparisons_with_teams_of_1_4_16", {Q: 50000, T: 1000000})],
+    min_nontrivial={Q: 8000, T: 100000},
+    coverage_floor=[("c13_grid", "index_comparisons", {Q: 50000000, T: 2000000000}),
+                    ("c13_grid", "volume_vs_exact_comparisons", {Q: 5000000, T: 200000000}),
+                    ("c13_grid", "forms_comparisons", {Q: 10000000, T: 600000000}),
+                    ("c13_grid", "subdivision_cells_compared", {Q: 500000, T: 20000000}),
+                    ("c13_grid", "thread_volume_comparisons_with_teams_of_1_4_16", {Q: 2000000, T: 100000000}),
+                    ("c13_grid", "egrid_round_trips", {Q: 30000, T: 400000}),
+                    ("c13_grid_tsan", "thread_volume_comparisons_with_teams_of_1_4_16", {Q: 50000, T: 8000000})],
     not_decided=[
         "block-centred input whose DX varies along j or k (DY along i or k): no corner-point grid is equivalent to such a "
         "description (the library builds tilted pillars from the top and bottom layer); the generator keeps DX = f(i), DY = f(j)",
